@@ -41,6 +41,10 @@ def gen_resize(repo, read):
                     out.append("ZIfNotStarted [" + "; ".join(block(x.body)) + "]")
                 else:
                     raise Refuse(f"_resize: conditional not recognised: {c!r}", x)
+            elif isinstance(x, ast.With) and ast.unparse(x.items[0]) == "self._shutdown_lock":
+                if [ast.unparse(y) for y in x.body] != ["if self._executor_manager_thread_wakeup is not None:\n    self._executor_manager_thread_wakeup.wakeup()"]:
+                    raise Refuse("_resize: unexpected block under the shutdown lock", x)
+                out.append("ZWakeManager")
             elif isinstance(x, ast.With):
                 if ast.unparse(x.items[0]) != "self._processes_management_lock":
                     raise Refuse("_resize: unexpected lock", x)
